@@ -77,6 +77,21 @@ func (e *Enc) encodeCall(fr *frame, st *bstate, res ssa.Value, call *ssa.CallCom
 				}
 			}
 		}
+		// a function taken out of a map that is stored in a struct field: contract "func Type.field"
+		if fa := mapFieldOfFuncValue(call.Value); fa != nil {
+			if pt, ok := fa.X.Type().Underlying().(*types.Pointer); ok {
+				if named, ok := types.Unalias(pt.Elem()).(*types.Named); ok && named.Obj().Pkg() != nil {
+					stt := named.Underlying().(*types.Struct)
+					key := named.Obj().Pkg().Path() + "#" + named.Obj().Name() + "." + stt.Field(fa.Field).Name()
+					if c := e.P.reg.Contracts[key]; c != nil {
+						e.curCallArgs = ssaArgs
+						e.externs[key+" (contract assumed of every function stored in this map)"] = true
+						bind(e.applyFieldFuncContract(fr, st, c, call.Signature(), args, resType, pos))
+						return
+					}
+				}
+			}
+		}
 		// a value of a named function type may have a contract attached to the type ("func pkg#Type"):
 		// an assumption about every function value of that type
 		if named, ok := types.Unalias(call.Value.Type()).(*types.Named); ok && named.Obj().Pkg() != nil {
@@ -383,9 +398,12 @@ func (e *Enc) applyContract(fr *frame, st *bstate, c *Contract, callee *ssa.Func
 		}
 	}
 	pre := &bstate{reach: st.reach, heap: copyHeap(st.heap)}
+	arb := map[string]string{}
 	mkEnv := func(cur *bstate) *SpecEnv {
 		env := e.newSpecEnv(fr, cur)
 		env.callParams = params
+		env.callSite = true
+		env.arb = arb
 		env.oldHeap = pre.heap
 		env.pkg = e.P.tpkgs[c.Pkg]
 		env.callSig = sig
@@ -786,8 +804,12 @@ func fieldIndex(st *types.Struct, name string) int {
 // the owner and, one level down, the contents of the maps and slices they hold.
 func (e *Enc) afterLock(st *bstate, mu ssa.Value) {
 	defer func() {
-		if e.lockHeap == nil && e.depth == 0 {
-			e.lockHeap = copyHeap(st.heap) // state right after the first Lock of the function body (atlock(...))
+		if e.depth == 0 {
+			if e.lockHeap == nil {
+				e.lockHeap = copyHeap(st.heap) // state right after the first Lock of the function body (atlock(...))
+			}
+			e.lockHeaps = append(e.lockHeaps, copyHeap(st.heap)) // atlock(e, n): after the n-th Lock in program order
+			e.lockInstrs = append(e.lockInstrs, e.curInstr)
 		}
 	}()
 	fa, ok := mu.(*ssa.FieldAddr)
@@ -1080,4 +1102,35 @@ func (e *Enc) unpublishedAt(at ssa.Instruction) []string {
 		}
 	}
 	return out
+}
+
+
+// mapFieldOfFuncValue: v is a function value read (by lookup or by range) from a map that
+// was loaded from a struct field; returns that field's address instruction.
+func mapFieldOfFuncValue(v ssa.Value) *ssa.FieldAddr {
+	var m ssa.Value
+	switch x := v.(type) {
+	case *ssa.Lookup:
+		m = x.X
+	case *ssa.Extract:
+		switch t := x.Tuple.(type) {
+		case *ssa.Lookup:
+			if x.Index == 0 {
+				m = t.X
+			}
+		case *ssa.Next:
+			if rng, ok := t.Iter.(*ssa.Range); ok && x.Index == 2 {
+				m = rng.X
+			}
+		}
+	}
+	if m == nil {
+		return nil
+	}
+	if ld, ok := m.(*ssa.UnOp); ok && ld.Op == token.MUL {
+		if fa, ok := ld.X.(*ssa.FieldAddr); ok {
+			return fa
+		}
+	}
+	return nil
 }
